@@ -1,7 +1,7 @@
 #!/usr/bin/env python3
 """Validate one seeded change and record what the checks say about it.
 
-  tools/try_seeded.py <Cnn> <worktree> [--checks C01,C02,...]
+  tools/try_seeded.py <Cnn> <worktree> [--checks C01,C02,...] [--name <directory under seeded/>]
 
 1. in the scratch worktree: the existing suite passes with the change, the demonstration fails with it and
    passes without it (the change is then re-applied);
@@ -20,6 +20,9 @@ def sh(cmd, cwd=None, timeout=3600):
 def main():
     pid, wt = sys.argv[1], sys.argv[2]
     checks = None
+    name = pid
+    if "--name" in sys.argv:
+        name = sys.argv[sys.argv.index("--name") + 1]
     if "--checks" in sys.argv:
         checks = sys.argv[sys.argv.index("--checks") + 1].split(",")
     env = "CARGO_NET_OFFLINE=true CARGO_TARGET_DIR=%s/target" % wt
@@ -69,7 +72,7 @@ def main():
         rc, out = sh("git -C /repo status --short")
         assert out.strip() == "", "/repo not restored: " + out
     # 3. store
-    dst = os.path.join(VERIF, "seeded", pid)
+    dst = os.path.join(VERIF, "seeded", name)
     os.makedirs(dst, exist_ok=True)
     shutil.copy(patch, os.path.join(dst, "patch.diff"))
     shutil.copy(demo, os.path.join(dst, "demo_%s.rs" % pid))
